@@ -8,7 +8,7 @@ R: the same monomials (and integer combinations of them, and exp / sin of them b
 the real UTPM.init_* -> UTPM arithmetic -> UTPM.extract_*; results compared with the spec's integers; the direction
 sets produced by init_hessian / init_hess_vec must be the spec's sets.
 """
-import itertools
+import itertools, json
 import numpy
 from common import *
 
@@ -29,6 +29,115 @@ INVARIANT SeedCounts
 INVARIANT EmitState
 CHECK_DEADLOCK FALSE
 """
+
+
+SESSION_CFG = """CONSTANTS Progs <- %s
+ Pts <- %s
+ Vs <- VsAll
+ Kinds <- %s
+ Ds <- %s
+ MaxPend = %d
+ MaxSteps = %d
+ Emit = TRUE
+INIT Init
+NEXT Next
+INVARIANT TypeOK
+INVARIANT DriversExact
+INVARIANT ExtractIndependent
+INVARIANT EmitState
+PROPERTY PendStable
+CHECK_DEADLOCK FALSE
+"""
+
+
+def session_program(algopy, prog):
+    """the vector-/matrix-valued polynomial program of the catalogue entry, written with algopy operations"""
+    mons, shape = prog["mon"], tuple(prog["shape"])
+
+    def f(x):
+        comps = []
+        for alpha in mons:
+            y = None
+            for i, a in enumerate(alpha):
+                for _ in range(a):
+                    y = x[i] if y is None else y * x[i]
+            comps.append(y)
+        if shape == ():
+            return comps[0]
+        out = algopy.zeros(len(comps), dtype=x)
+        for m, c in enumerate(comps):
+            out[m] = c
+        return out.reshape(shape)
+    return f
+
+
+def session_replay(rep, algopy, hist, mutate=None):
+    """one behaviour of DriverSession through the real drivers; returns the list of mismatches"""
+    from algopy import UTPM
+    import algopy.exact_interpolation as ei
+    pend, bad = [], []
+    for k, st in enumerate(hist):
+        e = st["e"]
+        N = len(e["pt"]); x = numpy.array(e["pt"], dtype=float); v = numpy.array(e["v"], dtype=float)
+        shape = tuple(e["prog"]["shape"]); kind = e["kind"]
+        if st["a"] == "seed":
+            f = session_program(algopy, e["prog"])
+            xs = {"jacobian": lambda: UTPM.init_jacobian(x), "jac_vec": lambda: UTPM.init_jac_vec(x, v), "hessian": lambda: UTPM.init_hessian(x),
+                  "hess_vec": lambda: UTPM.init_hess_vec(x, v), "tensor": lambda: UTPM.init_tensor(e["d"], x)}[kind]()
+            pend.append(f(xs))
+            continue
+        y = pend.pop(st["i"] - 1)
+        exp = st["exp"]
+        if kind == "jacobian":
+            got = UTPM.extract_jacobian(y); want = numpy.array(exp, dtype=float).reshape(shape + (N,))
+        elif kind == "jac_vec":
+            got = UTPM.extract_jac_vec(y); want = numpy.array(exp, dtype=float).reshape(shape)
+        elif kind == "hessian":
+            got = UTPM.extract_hessian(N, y); want = numpy.array(exp, dtype=float)
+        elif kind == "hess_vec":
+            got = UTPM.extract_hess_vec(N, y); want = numpy.array(exp, dtype=float)
+        else:
+            mi = [tuple(int(a) for a in row) for row in ei.generate_multi_indices(N, e["d"])]
+            got = UTPM.extract_tensor(N, y, as_full_matrix=False)
+            tens = [{parse_key(kk): val for kk, val in t.items()} for t in exp]
+            want = numpy.array([[t[m] for t in tens] for m in mi], dtype=float).reshape((len(mi),) + shape)
+        got = numpy.asarray(got, dtype=float)
+        if mutate:
+            want = want + mutate
+        if got.shape != want.shape:
+            bad.append(("extract_%s: shape" % kind, {"step": k, "got_shape": list(got.shape), "expected_shape": list(want.shape)}))
+        elif not numpy.allclose(got, want, rtol=1e-10, atol=1e-9):
+            bad.append(("extract_%s%s" % (kind, " after other seeds / extractions" if k > 1 else ""), {"step": k, "got": got.tolist(), "expected": want.tolist()}))
+    return bad
+
+
+def session_check(rep, algopy, tier):
+    q = tier == "quick"
+    runs = [("ProgsQuick", "PtsQuick", "KindsAll", "D123", 2, 4)] if q else \
+           [("ProgsAll", "PtsAll", "KindsAll", "D123", 2, 4), ("ProgsQuick", "PtsQuick", "KindsTensor", "D1234", 3, 6)]
+    first = None
+    for r_ in runs:
+        res = tlc_ok(run_tlc("MC_DriverSession", SESSION_CFG % r_, workers=16, timeout=2400), "MC_DriverSession")
+        rep.add_tlc(res, "MC_DriverSession %s" % (r_,))
+        if not res.records:
+            raise Machinery("DriverSession: no behaviours")
+        acts = set()
+        for hist in res.records:
+            first = first or hist
+            inter = any(hist[k]["a"] == "seed" and k > 0 for k in range(len(hist)))
+            rep.case(("session", json.dumps(hist, sort_keys=True)), nontrivial=inter)
+            acts.update((st["a"], st["e"]["kind"]) for st in hist)
+            try:
+                for sig, det in session_replay(rep, algopy, hist):
+                    rep.violation(sig, dict(det, behaviour=[(st["a"], st["e"]["kind"], st["e"]["pt"], st["e"]["d"], st["i"]) for st in hist]))
+            except Exception as ex:
+                rep.violation("driver session raises " + type(ex).__name__, {"what": repr(ex)[-300:], "behaviour": [(st["a"], st["e"]["kind"], st["e"]["pt"], st["e"]["d"], st["i"]) for st in hist]})
+            rep.replayed(1)
+        missing = {(a, k) for a in ("seed", "extract") for k in (("tensor",) if r_[2] == "KindsTensor" else ("jacobian", "jac_vec", "hessian", "hess_vec", "tensor"))} - acts
+        if missing:
+            raise Machinery("DriverSession: actions never taken: %s" % sorted(missing))
+    if not session_replay(rep, algopy, first, mutate=1.0):
+        raise Machinery("self-test: corrupted session expectation not detected")
 
 
 def parse_key(k):
@@ -185,6 +294,7 @@ def run(rep, tier, seed):
                     rep.violation("%s at a point of dtype %s differs from the same point as float64" % (nm, dt.__name__), {"got": a_.tolist(), "expected": b_.tolist()})
             except Exception as ex:
                 rep.violation("%s at a point of dtype %s raises %s" % (nm, dt.__name__, type(ex).__name__), {"what": repr(ex)[-200:]})
+    session_check(rep, algopy, tier)
     rep.sample({k: recs[len(recs) // 2][k] for k in ("alpha", "pt", "v", "jac", "hess")})
     # binding self-test
     r = next(r for r in recs if sum(r["alpha"]) >= 2)
